@@ -140,12 +140,18 @@ def run(ctx):
 
     # the variable the protocol patterns are applied to
     interp = set()
+    by_kind = {}
     for c in walk_no_nested(lin.node):
         if isinstance(c, ast.Call) and isinstance(c.func, ast.Attribute) and c.func.attr in ("match", "search") \
                 and R.pattern_of(c.func.value, lin) and c.args and isinstance(c.args[0], ast.Name):
             from .c09 import proto_kind
-            if proto_kind(R.pattern_of(c.func.value, lin)[1]) in ("size", "status"):
+            kind = proto_kind(R.pattern_of(c.func.value, lin)[1])
+            if kind in ("size", "status"):
                 interp.add(c.args[0].id)  # the line itself (the tail of a NO reply, decoded in place, is a part of it)
+                by_kind.setdefault(kind, set()).add(c.args[0].id)
+    if len(interp) != 1 and len(by_kind.get("status", ())) == 1:
+        # the size pattern is also applied to a named part of the status text: the line is what the status pattern reads
+        interp = set(by_kind["status"])
     if len(interp) != 1:
         raise AnalysisError("K4", "line reader: interpreted variable not identified (%s)" % sorted(interp))
     v = next(iter(interp))
